@@ -19,7 +19,7 @@ class LagrangePropagator(AnalyticalPropagator):
             raise ValueError(f"Unknown Lagrange point : {number}")
 
     def copy(self):  # pragma: no cover
-        return self.__class__(self.frame1, self.body2)
+        return self.__class__(self.frame1, self.body2, self.number)
 
     def propagate(self, date):
         orb = self.body2.propagate(date).copy(frame=self.frame1, form="cartesian")
